@@ -57,8 +57,33 @@ def cross_check_real(ctx, cases, impl, per_call=None):
              and b'gen' not in c.path[:1]]
     if not plain or k <= 0:
         return
+    # The outermost layer (main, the Command() wrappers, NewCmdUtils, flag definitions) runs only here, and what it does depends
+    # on the *shape* of the invocation: which command, which flags, which environment variables, how many positional arguments
+    # (round t: a wrapper that alters the period of `bal -b` without `-e`, a flag redefined on one sub-command).  The sample is
+    # therefore taken per shape - up to three cases of every distinct shape - and then filled up by stride.
+    def shape(c):
+        return (tuple(c.path), tuple(sorted((c.g or {}).keys())), tuple(sorted((c.s or {}).keys())), tuple(sorted((c.env or {}).keys())),
+                len(c.args or ()), bool(c.cfg))
+    by_shape = {}
+    for c in plain:
+        by_shape.setdefault(shape(c), []).append(c)
+    cap = (400 if ctx.tier == "quick" else 1200) if per_call is None else per_call
+    picked, seen = [], set()
+    for rnd in range(3):
+        for sh, cs in by_shape.items():
+            if len(picked) >= cap:
+                break
+            c = cs[(0, len(cs) // 2, len(cs) - 1)[rnd]]
+            if c.id not in seen:
+                seen.add(c.id)
+                picked.append(c)
     step = max(1, len(plain) // k)
-    picked = plain[::step][:k]
+    for c in plain[::step][:k]:
+        if c.id not in seen:
+            seen.add(c.id)
+            picked.append(c)
+    ctx.count('real-binary:shapes', len(by_shape))
+    to_file = 0
     binary = ctx.real()
     for c in picked:
         files = dict(c.files)
@@ -81,6 +106,19 @@ def cross_check_real(ctx, cases, impl, per_call=None):
         if not same:
             ctx.problem('corr', 'the real binary and the in-process driver disagree for `%s` (exit status %d vs %s)' % (c.meta.get('kind', '?'), rc, i.get('status')), c,
                         {'real_stdout': out.decode('utf-8', 'replace')[:800], 'real_stderr': err.decode('utf-8', 'replace')[:300], 'driver': summarize(i)})
+        # what standard output *is* is no input of a report: the same bytes go into a regular file as into a pipe
+        if same and rc == 0 and out and to_file < (16 if ctx.tier == "quick" else 60):
+            to_file += 1
+            try:
+                rc2, out2, err2 = core.run_real_binary(binary, c.argv(), files, env_extra=env_extra, tz=c.tz, home_config=home_config, stdout_to='file')
+            except Exception:
+                continue
+            ctx.evaluations += 1
+            same2 = rc2 == rc and out2 == out
+            ctx.op('real-binary: file = pipe', same2)
+            if not same2:
+                ctx.problem('corr', 'the real binary writes different bytes into a regular file than into a pipe for `%s` (exit status %d vs %d)' % (c.meta.get('kind', '?'), rc2, rc), c,
+                            {'into_file': out2.decode('utf-8', 'replace')[:800], 'into_pipe': out.decode('utf-8', 'replace')[:800]})
 
 
 def real_observation(ctx, c):
